@@ -147,7 +147,8 @@ def run_batch(spec):
     that are exact multiples of 2^-F).  Returns a list of records."""
     typ, m = spec['typ'], spec['m']
     SRC.reset(seed=spec['seed'])
-    net = SimNet(m, seed=spec['seed'], no_prss=spec['no_prss'], max_steps=400_000_000)
+    net = SimNet(m, seed=spec['seed'], no_prss=spec['no_prss'],
+                 max_steps=400_000 + 80_000 * sum(len(it[2]) for it in spec['items']))
     ro.install(net)
     items = spec['items']
 
@@ -172,7 +173,20 @@ def run_batch(spec):
                 out.append((di, ci, None, v))
         return out, mpc.options.sec_param // 6
 
-    results = net.run(prog)
+    try:
+        results = net.run(prog)
+    except (simnet.PartyError, simnet.Deadlock) as exc:
+        ncalls = sum(len(it[2]) for it in items)
+        if ncalls == 1:
+            x, y, calls = items[0]
+            return [{'typ': typ, 'm': m, 'no_prss': spec['no_prss'], 'seed': spec['seed'], 'x': x, 'y': y,
+                     'call': calls[0], 'exc': f'CRASH {type(exc).__name__}: {str(exc)[:200]}', 'value': None,
+                     'agree': True, 'priv': 0, 'qs': None}]
+        recs = []
+        for x, y, calls in items:           # isolate the failing call(s)
+            for call in calls:
+                recs += run_batch(dict(spec, items=[(x, y, [call])]))
+        return recs
     res0, priv = results[0]
     agree = all(r[0] == res0 for r in results)
     recs = []
